@@ -402,7 +402,13 @@ def login(ctx, script, pv=757, online=True, token=True, message='text',
     if pv < 385 and n_p:
         # plugin requests do not exist before protocol 385: not applicable
         raise core.PathAbort()
-    conds.append(z3.BoolVal(len(got) == len(exp)))
+    if ends_ok:
+        conds.append(z3.BoolVal(len(got) == len(exp)))
+    else:
+        # the server hangs up: replies that were still queued when the
+        # disconnect arrived need not be sent any more, but whatever was sent
+        # must be the expected replies, in order, none twice
+        conds.append(z3.BoolVal(len(got) <= len(exp)))
     c_index = script.index('C') if 'C' in script else None
     for (st, body, was_c), (est, fields) in zip(got, exp):
         conds.append(encn.matches(body, fields))
@@ -471,6 +477,13 @@ def instances(tier, seed):
                         {'script': 'ES', 'online': True}, W=192,
                         budget_s=3000, witness_every=9,
                         max_decisions=200000))
+    # a disconnect (and a plugin request before it) on either side of every
+    # login layout boundary
+    for pv in VERSIONS:
+        sc = 'PD' if pv >= 385 else 'D'
+        out.append(Instance('login:%s:%d:boundary' % (sc, pv), 'login',
+                            {'script': sc, 'pv': pv, 'online': False},
+                            W=192, budget_s=900, max_decisions=200000))
     if tier == 'thorough':
       out.append(Instance('login:CES:online:391', 'login',
                           {'script': 'CES', 'online': True, 'pv': 391},
